@@ -1087,7 +1087,12 @@ def trlog(T, check=True, twist=False):
                 S = trlog(R, check=False)  # recurse
                 w = base.vex(S)
                 theta = base.norm(w)
-                Ginv = np.eye(3) - S / 2 + (1 / theta - 1 / math.tan(theta / 2) / 2) / theta * S @ S
+                if theta < 1e-3:
+                    # series for (1 / theta - cot(theta / 2) / 2) / theta, finite at theta = 0
+                    c = 1 / 12 + theta ** 2 / 720
+                else:
+                    c = (1 / theta - 1 / math.tan(theta / 2) / 2) / theta
+                Ginv = np.eye(3) - S / 2 + c * S @ S
                 v = Ginv @ t
                 if twist:
                     return np.r_[v, w]
